@@ -61,11 +61,12 @@ ExhCases(g, Seed) ==
           x \in {y \in (1..Len(BinOps)) \X {i \in 1..NV : i % Groups = g} \X (1..NV) : Keep(y[1], y[2], y[3], Seed)}}
 
 (* ---------------------------------------------------------------------------------------- *)
-(* pseudo-random formulas: Gen(s, d, nv) = [f |-> formula of depth <= d, s |-> next state]   *)
-RECURSIVE Gen(_, _, _), GenSeq(_, _, _, _), GenIs(_, _, _)
+(* pseudo-random formulas: Gen(s, d, nv, lo) = [f |-> formula of depth <= d, s |-> next       *)
+(* generator state]; lo = 22 forces a non-leaf at the root when d > 0, lo = 0 elsewhere       *)
+RECURSIVE Gen(_, _, _, _), GenSeq(_, _, _, _), GenIs(_, _, _)
 GenSeq(s, d, nv, len) ==
   IF len = 0 THEN [fs |-> <<>>, s |-> s]
-  ELSE LET h == Gen(s, d, nv)
+  ELSE LET h == Gen(s, d, nv, 0)
            t == GenSeq(h.s, d, nv, len - 1)
        IN [fs |-> <<h.f>> \o t.fs, s |-> t.s]
 GenIs(s, cnt, top) ==    \* cnt entries <<lo, hi>> with 0 <= lo <= top, lo <= hi <= lo + 2
@@ -76,17 +77,17 @@ GenIs(s, cnt, top) ==    \* cnt entries <<lo, hi>> with 0 <= lo <= top, lo <= hi
            hi == lo + <<0, 0, 0, 1, 2>>[1 + (s2 % 5)]
            t  == GenIs(s2, cnt - 1, top)
        IN [is |-> << <<lo, hi>> >> \o t.is, s |-> t.s]
-Gen(s, d, nv) ==
+Gen(s, d, nv, lo) ==
   LET s1 == Nxt(s)
       s2 == Nxt(s1)
-      t  == s1 % 100
+      t  == lo + (s1 % (100 - lo))
   IN IF d = 0 \/ t < 22
        THEN [f |-> IF s2 % 10 < 8 THEN Var(1 + ((s2 \div 16) % nv)) ELSE Const((s2 \div 16) % 2), s |-> s2]
      ELSE IF t < 34
-       THEN LET h == Gen(s2, d - 1, nv) IN [f |-> Not(h.f), s |-> h.s]
+       THEN LET h == Gen(s2, d - 1, nv, 0) IN [f |-> Not(h.f), s |-> h.s]
      ELSE IF t < 84
-       THEN LET l == Gen(s2, d - 1, nv)
-                r == Gen(l.s, d - 1, nv)
+       THEN LET l == Gen(s2, d - 1, nv, 0)
+                r == Gen(l.s, d - 1, nv, 0)
             IN [f |-> Bin(BinOps[1 + ((s2 \div 16) % Len(BinOps))], l.f, r.f), s |-> r.s]
      ELSE IF t < 91
        THEN LET h == GenSeq(s2, d - 1, nv, (s2 \div 16) % 4)
@@ -100,7 +101,7 @@ MkSingle(n, Seed) ==
   LET s  == Start(n, 1, Seed)
       nv == 1 + (s % NVMax)
       d  == 1 + ((s \div 8) % DMax)
-  IN Case("single", n, nv, <<>>, Gen(Nxt(s), d, nv).f)
+  IN Case("single", n, nv, <<>>, Gen(Nxt(s), d, nv, 22).f)
 
 RECURSIVE GenActs(_, _, _)
 GenActs(s, cnt, nv) ==
@@ -110,7 +111,7 @@ GenActs(s, cnt, nv) ==
            t  == s1 % 100
            i  == 1 + (s2 % nv)
            j  == 1 + ((i + ((s2 \div 16) % (nv - 1))) % nv)          \* j # i
-           h  == Gen(s2, 1 + ((s2 \div 8) % 2), nv)
+           h  == Gen(s2, 1 + ((s2 \div 8) % 2), nv, 22)
            a  == IF t < 64 THEN [act |-> [t |-> "sat", i |-> 0, j |-> 0, f |-> h.f], s |-> h.s]
                  ELSE IF t < 84 THEN [act |-> [t |-> "unify", i |-> i, j |-> j, f |-> Const(1)], s |-> s2]
                  ELSE [act |-> [t |-> "bind", i |-> i, j |-> (s2 \div 64) % 2, f |-> Const(1)], s |-> s2]
@@ -121,7 +122,7 @@ MkStore(n, Seed) ==
   LET s  == Start(n, 2, Seed)
       nv == 2 + (s % (NVMax - 1))
       as == GenActs(Nxt(s), 1 + ((s \div 8) % 3), nv)
-      q  == Gen(as.s, 1 + ((s \div 64) % 2), nv)
+      q  == Gen(as.s, 1 + ((s \div 64) % 2), nv, 10)
   IN Case("store", n, nv, as.acts, q.f)
 
 RndCases(g, Seed) ==
@@ -159,12 +160,12 @@ Sane ==
 
 Emit ==
   phase = "case" =>
-    LET S == SM IN
-    PrintT(ToJson(
+    LET S == SM                                                  \* all assignments if the store is empty
+        M == IF c.acts = <<>> THEN Models(c.f, c.nv) ELSE S      \* what labeling must enumerate (see driver)
+    IN PrintT(ToJson(
       [kind |-> c.kind, n |-> c.n, nv |-> c.nv, acts |-> c.acts, f |-> c.f,
-       sat |-> S # {},
-       smodels |-> S,                          \* models of the store (all assignments if it is empty)
-       fmodels |-> Models(c.f, c.nv),          \* models of the query formula alone
+       sat |-> M # {},
+       models |-> M,
        taut |-> IF S = {} THEN -2 ELSE Taut(c.f, S),
        count |-> Count(c.f, S),
        ops |-> Ops(c.f), depth |-> Depth(c.f), nvars |-> Cardinality(Vars(c.f))]))
